@@ -279,7 +279,7 @@ impl Scenario for BigramScenario {
                 "bigram.cost contains no literal '*' feature and no '/'-only line (BOSxEOS padding lanes would otherwise need interpretation); costs are within [-300,300] so the pre-summed part fits 16 bits",
                 "the for-all-models quantifier of the statement is sampled as workload; what the simulation decides is independence from the hidden template split (and, thorough tier, from the build)",
             ],
-            real: vec!["RawConnector, DualConnector (greedy split, pre-summed matrix, raw lanes), Scorer double array (portable path here), builder, tokenizer"],
+            real: vec!["RawConnector, DualConnector (greedy split, pre-summed matrix, raw lanes), Scorer double array (portable path in the seeded runs; AVX2 path in the two-build exchange step of ./check, reported under cross_build_exchange), builder, tokenizer"],
             stub: vec!["bigram files (in-memory)", "the hash-order of the greedy split (replaced by the plan's order seed through hook H5)"],
             probes: vec![
                 "probe.k_lt_8",
